@@ -5,13 +5,7 @@ From Dae.gen Require Import C03_Consts C03_Layout.
 Import ListNotations.
 Open Scope N_scope.
 
-(* "No verdict depends on which of the two header-parsing paths handled the frame", at the level of what a
-   hook reads of a parse result.  FULL statement: *)
-Definition C03_parse_paths_agree_full : Prop := parse_paths_agree_stmt proj.
-(* It is false of the faithful model (and of the code): parse_transport_fast does not copy tcph->ack. *)
-Theorem C03_parse_paths_agree_refuted : ~ C03_parse_paths_agree_full.
-Proof. exact parse_paths_agree_refuted_proof. Qed.
-Print Assumptions C03_parse_paths_agree_refuted.
+(*PARSE_THEOREMS*)
 
 (* Packets sent by dae itself (its pid, its socket mark, or mark bit 0x100) are never captured again. *)
 Theorem C03_no_recapture :
